@@ -148,7 +148,7 @@ func c18SetOf(l []string) map[string]bool {
 
 func c18AnalyzeCase(text string, extAcc, extCom []string) map[string]any {
 	journal, _ := parser.Parse(text)
-	a := analyzer.New()
+	a := longLivedAnalyzer()
 	var res *analyzer.AnalysisResult
 	if extAcc == nil && extCom == nil {
 		res = a.Analyze(journal)
@@ -485,7 +485,7 @@ func c18RuleCase(declAcc, declCom []string, txs [][]map[string]any, extAcc, extC
 		}
 		j.Transactions = append(j.Transactions, tx)
 	}
-	a := analyzer.New()
+	a := longLivedAnalyzer()
 	var res *analyzer.AnalysisResult
 	if extAcc == nil && extCom == nil {
 		res = a.Analyze(j)
